@@ -38,7 +38,7 @@ m = {
     "hooks": {
         "guard": "OPNMIDI_VERIF",
         "enable": "build.sh compiles /repo's sources with -DOPNMIDI_VERIF (plus the shipped -DENABLE_END_SILENCE_SKIPPING -DOPNMIDI_MIDI2VGM -DNDEBUG) into /verif/build/<variant>/libopn.a; stdio is replaced at link time with -Wl,--wrap (no repo change)",
-        "baseline_off_cmd": "cmake -G Ninja -S /repo -B /repo/_build >/dev/null && cmake --build /repo/_build && ctest --test-dir /repo/_build -j8 --timeout 900",
+        "baseline_off_cmd": "cmake -G Ninja -S /repo -B /repo/_build -DWITH_UNIT_TESTS=ON >/dev/null && cmake --build /repo/_build && ctest --test-dir /repo/_build -j8 --timeout 900",
         "source_commits": hook_commits,
         "add_only": True,
     },
